@@ -15,7 +15,7 @@ def expand(rle):
     return out
 
 
-def crafted(z, pair):
+def crafted(z, pair, zs_all=None):
     """files of struct three whose string column holds a complete trailer:
     A: footer ++ le32(len)            (a prefix ending there lacks only the trailing magic)
     B: footer ++ le32(len) ++ "PAR1"  (a prefix ending there is itself a well-formed file: inherent)"""
@@ -30,6 +30,22 @@ def crafted(z, pair):
     # near-miss magics: a reader that compares only part of the magic (a prefix, case-insensitively, ...)
     # accepts the prefix ending there; the real magic is exactly "PAR1"
     near = [("embedded-trailer-near-magic-" + m.hex(), trailer + m) for m in (b"PAR2", b"PART", b"PAR\x00", b"par1", b"PARE", b"\x00AR1", b"1RAP")]
+    # a complete one-record file of the same struct inside the value of the LAST column of the last page, followed by
+    # more bytes of that value: the prefix ending right after the embedded file's magic has a decodable footer of the
+    # right table, but its last page is cut short (struct samename: the last column is an optional string)
+    zl = zs_all.get("samename") if zs_all else None
+    if zl is not None:
+        def set_last(rec, payload):
+            kind = rec[0]
+            if kind == "struct":
+                return ("struct", rec[1][:-1] + [set_last(rec[1][-1], payload)])
+            if kind in ("some", "nil"):
+                return ("some", ("leaf", payload))
+            return ("leaf", payload)
+        g = zoolib.Gen(__import__("random").Random(11), mode="pool")
+        base_rec = g.record(zl.nodes)
+        inner = bytes.fromhex(pair.impl(["zoo-write %s 2 0 %s" % (zl.name, zl.ops_text([("a", set_last(base_rec, b"in")), ("w",), ("c",)])[0])])[0].split(" ")[0])
+        out.append(filelevel.Case(zl, 2, 0, [("a", set_last(base_rec, inner + b"tail-of-the-value")), ("w",), ("c",)], "embedded-complete-file-in-last-value"))
     for tag, payload in [("embedded-footer-no-magic", trailer), ("embedded-complete-trailer", trailer + b"PAR1"),
                          ("embedded-footer-far-length-no-magic", far), ("embedded-footer-far-length", far_magic)] + near:
         rec = ("struct", [("leaf", zoolib.le(7, 8)), ("some", ("leaf", payload)), ("list", [])])
@@ -49,7 +65,7 @@ def run(chk):
     pair = Pair(chk.log)
     zs = filelevel.load_zoos(pair, workloads.ZOOS)
     cases = iocommon.corpus(chk, pair, zs, thorough, per_zoo=(2 if thorough else 1))
-    cr = crafted(zs["three"], pair)
+    cr = crafted(zs["three"], pair, zs)
     filelevel.run_cases(pair, cr, want_parse=False)
     cases += cr
     tabtxt = lambda d: ",".join("%s=%s" % kv for kv in d.items()) or "-"
